@@ -168,6 +168,18 @@ CHECKS["C16"] = dict(
           "for them yet (partial)."),
     design="6/C16", technique="Coq proof over R (case analysis on crossing patterns, field) + vm_compute correspondence at binary64")
 
+CHECKS["C17"] = dict(
+    text=("Theorems over R about the Gallina model of curvature()/curvature_tria(), with the eigen-solver as an oracle: for EVERY result "
+          "the solver returns, c_min <= c_max, mean = (c_min+c_max)/2, Gauss = c_min*c_max and each returned direction is +- one of the "
+          "solver's eigenvectors; for every result with orthonormal eigenvectors the directions are unit, mutually orthogonal and "
+          "orthogonal to the returned normal, the normal lies on the side of the vertex normal and (u_min, u_max, n) is right-handed; "
+          "curvature_tria returns two unit, orthogonal directions in the triangle plane whenever the triangle and the projected "
+          "direction are not degenerate (1e-8 guards inactive). Correspondence: the model reproduces the tensors handed to the solver "
+          "(np.linalg.eig/eigh wrapped in the harness process) and, fed with the solver's result, the outputs. Invariance under "
+          "similarity, cylinder and sphere behaviour are decided by oracles on the implementation (partial); directions inside "
+          "eigenspaces of dimension >= 2 do not rotate with the mesh (known finding F21)."),
+    design="6/C17", technique="Coq proof over R (permutation case analysis, ring/field) + oracle-recording correspondence at binary64")
+
 NOT_YET = {}
 
 
